@@ -1,5 +1,167 @@
-From CppcmsV Require Import Base.Tac C18.Defs.
+(* C18: property theorems (statements only; proofs are in Proofs.v, Crash.v, History.v).
+   Model: C18/Defs.v.  Hypotheses used throughout:
+     s64_ok t   the deadline fits int64            bytes_ok d  payload bytes < 256
+     small d    payload shorter than 2^31 bytes    ps_ok ps    per-sector progress is 0 or >= 16 (header atomic)
+     old_ok F   the old file is absent/empty or has at least the 16 header bytes
+     0 < now    the clock at load time is positive *)
+From CppcmsV Require Import Base.Tac Base.Sweep C18.Defs C18.Proofs C18.Crash C18.History C18.Link gen.Gen_crc.
 Local Open Scope N_scope.
-Theorem placeholder : crc32 [] = 0.
-Proof. reflexivity. Qed.
-Print Assumptions placeholder.
+
+(* ---- 1. crash safety: every crash state of every save over every old file ----
+   load gives nothing, the new value, what the old file gave, or a CRC-32 collision, spelled out: the
+   returned bytes have the deadline, length and CRC of the header they were read under (new or old),
+   every byte is the new payload byte, the old file byte or a hole zero at that position, and they are
+   not the value that header was written for. *)
+Theorem C18_crash_safe : forall now F t d ps,
+  s64_ok t -> bytes_ok d -> small d -> ps_ok ps -> old_ok F -> (0 < now)%Z ->
+  let res := read_from_file now (crash_file F (new_image t d) ps) in
+  res = None \/ res = Some (t, d) \/ res = read_from_file now F \/ collision now F t d res.
+Proof. exact Crash.crash_safe. Qed.
+Print Assumptions C18_crash_safe.
+
+(* the four outcomes all occur (old "a.C=.N" deadline 5000, new "bHELLO" deadline 6000, clock 100) *)
+Example C18_crash_safe_nonvacuous :
+  (s64_ok 6000 /\ bytes_ok w_new /\ small w_new /\ ps_ok w_ps /\ old_ok w_F /\ (0 < 100)%Z) /\
+  read_from_file 100 (crash_file w_F (new_image 6000 w_new) [0]) = Some (5000%Z, w_old) /\
+  read_from_file 100 (crash_file w_F (new_image 6000 w_new) [16]) = None /\
+  read_from_file 100 (crash_file w_F (new_image 6000 w_new) [22]) = Some (6000%Z, w_new) /\
+  read_from_file 100 (crash_file [] (new_image 6000 w_new) [0; 600]) = None /\
+  collision 100 w_F 6000 w_new (read_from_file 100 (crash_file w_F (new_image 6000 w_new) w_ps)).
+Proof.
+  split; [exact witness_hyps|]. repeat (split; [vm_compute; reflexivity|]). exact witness_is_collision.
+Qed.
+
+(* ---- 2. the unconditional statement is false: CRC-32 collision witness (KNOWN FINDING) ---- *)
+Theorem C18_crash_collision_witness :
+  exists F t d ps now,
+    s64_ok t /\ bytes_ok d /\ small d /\ ps_ok ps /\ old_ok F /\ (0 < now)%Z /\
+    exists d', read_from_file now (crash_file F (new_image t d) ps) = Some (t, d') /\
+               d' <> d /\ read_from_file now F <> Some (t, d') /\
+               (forall t0, read_from_file now F <> Some (t0, d')) /\
+               length d' = length d /\ crc32 d' = crc32 d.
+Proof. exact crash_collision_witness. Qed.
+Print Assumptions C18_crash_collision_witness.
+
+Theorem C18_crash_safe_unconditional_refuted :
+  exists F t d ps now,
+    s64_ok t /\ bytes_ok d /\ small d /\ ps_ok ps /\ old_ok F /\ (0 < now)%Z /\
+    let res := read_from_file now (crash_file F (new_image t d) ps) in
+    ~ (res = None \/ res = Some (t, d) \/ res = read_from_file now F).
+Proof. exact crash_safe_unconditional_refuted. Qed.
+Print Assumptions C18_crash_safe_unconditional_refuted.
+
+(* ---- 3. what load returns lies inside the file and has the length of the header ---- *)
+Theorem C18_read_in_bounds : forall now f t' d', read_from_file now f = Some (t', d') ->
+  (16 <= length f)%nat /\ N.of_nat (length d') = hdr_size f /\ crc32 d' = hdr_crc f /\ (now <= t')%Z /\
+  (hdr_size f < 2 ^ 31 -> (16 + length d' <= length f)%nat /\ d' = firstn (length d') (skipn 16 f)).
+Proof. exact read_in_bounds. Qed.
+Print Assumptions C18_read_in_bounds.
+
+(* ---- 4. no crash: save then load returns the value while it is alive, over any old file ---- *)
+Theorem C18_save_then_load : forall now F t d,
+  s64_ok t -> bytes_ok d -> small d ->
+  read_from_file now (save_file F t d) = if (t <? now)%Z then None else Some (t, d).
+Proof. exact save_then_read. Qed.
+Print Assumptions C18_save_then_load.
+
+(* ---- 5. histories: any sequence of saves, crashed saves, removes, loads and gc runs ---- *)
+Theorem C18_history_load : forall ops now t' d',
+  Forall op_ok ops -> (0 < now)%Z ->
+  read_from_file now (cur (run ops)) = Some (t', d') ->
+  exists t d, In (t, d) (saves_of ops) /\ t' = t /\ (now <= t)%Z /\ length d' = length d /\ crc32 d' = crc32 d.
+Proof. exact history_load. Qed.
+Print Assumptions C18_history_load.
+
+Theorem C18_history_old_ok : forall ops, Forall op_ok ops -> old_ok (cur (run ops)).
+Proof. exact history_old_ok. Qed.
+Print Assumptions C18_history_old_ok.
+
+Theorem C18_history_crash_safe : forall ops now t d ps,
+  Forall op_ok ops -> op_ok (OCrash t d ps) -> (0 < now)%Z ->
+  let F := cur (run ops) in
+  let res := read_from_file now (cur (run (ops ++ [OCrash t d ps]))) in
+  res = None \/ res = Some (t, d) \/ res = read_from_file now F \/ collision now F t d res.
+Proof. exact history_crash_safe. Qed.
+Print Assumptions C18_history_crash_safe.
+
+Theorem C18_history_save_load : forall ops now t d,
+  op_ok (OSave t d) ->
+  read_from_file now (cur (run (ops ++ [OSave t d]))) = if (t <? now)%Z then None else Some (t, d).
+Proof. exact history_save_load. Qed.
+Print Assumptions C18_history_save_load.
+
+Definition ex_ops : list op :=
+  [OSave 5000 w_old; OGc 100; OCrash 6000 w_new w_ps; OLoad 100; OGc 5500; OCrash 7000 [1; 2; 3] [0; 19]].
+Example C18_history_nonvacuous :
+  Forall op_ok ex_ops /\ read_from_file 100 (cur (run ex_ops)) = Some (6000%Z, w_mix) /\
+  In (6000%Z, w_new) (saves_of ex_ops).
+Proof.
+  split.
+  - destruct witness_hyps as (A & B & C & D & E & G).
+    assert (ps_ok [0; 19]) as P2 by (constructor; [left; reflexivity|constructor; [right; lia|constructor]]).
+    unfold ex_ops. repeat (apply Forall_cons; [cbn [op_ok]|]); [| | | | | |apply Forall_nil];
+      repeat split; try exact I; try assumption; try (unfold s64_ok; lia);
+      try (apply bytes_okb_spec; vm_compute; reflexivity); try (unfold small; vm_compute; reflexivity).
+  - split; [vm_compute; reflexivity|]. cbn. right. left. reflexivity.
+Qed.
+
+(* ---- 6. gc and load on a directory ---- *)
+Theorem C18_gc_exact : forall now d nm f,
+  In (nm, f) (gc now d) <-> In (nm, f) d /\ (valid_name nm = false \/ timestamp_ok now f = true).
+Proof. exact gc_in. Qed.
+Print Assumptions C18_gc_exact.
+
+Theorem C18_timestamp_ok_spec : forall now f,
+  timestamp_ok now f = false <-> (length f < 8)%nat \/ (hdr_deadline f < now)%Z.
+Proof. exact timestamp_ok_spec. Qed.
+Print Assumptions C18_timestamp_ok_spec.
+
+Theorem C18_gc_keeps_live : forall now d nm f r,
+  lookup nm d = Some f -> read_from_file now f = Some r -> lookup nm (gc now d) = Some f.
+Proof. exact gc_keeps_live. Qed.
+Print Assumptions C18_gc_keeps_live.
+
+Theorem C18_gc_keeps_foreign : forall now d nm, valid_name nm = false -> lookup nm (gc now d) = lookup nm d.
+Proof. exact gc_keeps_foreign. Qed.
+Print Assumptions C18_gc_keeps_foreign.
+
+Theorem C18_gc_result_alive : forall now d nm f,
+  lookup nm (gc now d) = Some f -> valid_name nm = true -> (8 <= length f)%nat /\ (now <= hdr_deadline f)%Z.
+Proof. exact gc_result_alive. Qed.
+Print Assumptions C18_gc_result_alive.
+
+Theorem C18_load_spec : forall now nm d,
+  match load now nm d with
+  | (Some r, d') => d' = d /\ exists f, lookup nm d = Some f /\ read_from_file now f = Some r
+  | (None, d') => lookup nm d' = None /\ forall k, name_eqb k nm = false -> lookup k d' = lookup k d
+  end.
+Proof. exact load_spec. Qed.
+Print Assumptions C18_load_spec.
+
+Definition nmA : name := repeat 97 32.
+Definition nmB : name := repeat 66 32.
+Definition nmX : name := repeat 120 32.
+Definition ex_dir : dir := save nmA 5000 w_old (save nmB 90 w_new (store nmX [1; 2; 3] [])).
+Example C18_gc_nonvacuous :
+  valid_name nmA = true /\ valid_name nmB = true /\ valid_name nmX = false /\
+  lookup nmA (gc 100 ex_dir) = Some w_F /\ lookup nmB ex_dir <> None /\ lookup nmB (gc 100 ex_dir) = None /\
+  lookup nmX (gc 100 ex_dir) = Some [1; 2; 3] /\
+  fst (load 100 nmA ex_dir) = Some (5000%Z, w_old) /\ fst (load 100 nmB ex_dir) = None.
+Proof. repeat split; try (vm_compute; reflexivity). vm_compute. discriminate. Qed.
+
+(* ---- 7. tie: the CRC table found in private/crc32.h is the table of the bit model, and the
+   byte-at-a-time loop of Crc32_ComputeBuf over it computes the model's crc32 ---- *)
+Theorem C18_link_crc_table : forall i, i < 256 -> nth (N.to_nat i) g_crc_table 0%Z = Z.of_N (crc_table_entry i).
+Proof. exact link_crc_table. Qed.
+Print Assumptions C18_link_crc_table.
+
+Theorem C18_crc_table_form : forall s b, b < 256 -> crc_byte_tab s b = crc_byte s b.
+Proof. exact crc_byte_tab_eq. Qed.
+Print Assumptions C18_crc_table_form.
+
+Theorem C18_link_crc32 : forall l, bytes_ok l -> g_crc32 l = crc32 l.
+Proof. exact link_crc32. Qed.
+Print Assumptions C18_link_crc32.
+
+Example C18_link_crc32_nonvacuous : g_crc32 [49; 50; 51; 52; 53; 54; 55; 56; 57] = 3421780262 /\ crc32 w_new = crc32 w_mix.
+Proof. split; vm_compute; reflexivity. Qed.
